@@ -18,7 +18,7 @@ FINISH = {"level": "proof", "assumptions": [
     "engineDeadline mirrors LockManager.AddLock (lock.go 566-577); the harness computes the original deadline with the same formula (the engine's own expiry timing is C06's business)",
     "times are below 2^61 seconds; the reload uses one clock value for the file filter and for the conversion",
     "journal/replay part: the REAL restart snapshot is diffed against Slock.Aof.reload (the model of LoadAofFile's per-record filter + HandleLoad + the FROM_AOF branches of LockDB.Lock/UnLock, with the regenerated doLock / CheckLockedEqual / GetLockCommandExpriedTime kernels); every load is pinned to one real second (repeated when the wall second changed); the journal side and the property are monitors (seeded histories over 2-3 dbs through a real SLock + real Aof with real AofChannel goroutines on a virtual clock laid out so that the restart second equals the real clock; fresh SLock on a copy of the directory); its oracle is the reference replay recover (Slock.Aof.recover), whose Lean definition is diffed against the harness's Go copy on every journal (aofjournal lines) and about which the C07J algebra is proved; the refinement recover(journal) = persisted holds over the engine model is NOT proved (statement text in Properties/C07Journal.lean)",
-    "not generated: updates that move a hold between the millisecond wheel and the second wheel, the 'unlimited + Expried 0xffff' update, require-ack locks, size-triggered rotation in the middle of a history (loadRewriteAofFiles reads time.Now())"]}
+    "generated since the mutation scan: holds taken with Rcount-is-priority (TimeoutFlag 0x10, some waiting and granted later); the snapshot compares TimeoutFlag & 0x1010 (priority, require-ack) as well as Rcount. Not generated: require-ack holds (their journal records are acknowledged through the replication manager), updates that move a hold between the millisecond wheel and the second wheel, the 'unlimited + Expried 0xffff' update, require-ack locks, size-triggered rotation in the middle of a history (loadRewriteAofFiles reads time.Now())"]}
 
 
 def classify(op, impl):
@@ -39,10 +39,10 @@ def run(ctx):
     exe = ctx.build_harness("server", only=["zz_verif_aof_test.go", "zz_verif_aof_restart_test.go", "zz_verif_aof_rewrite_test.go"])
     if not exe:
         return
-    n = 3000 if ctx.tier == "quick" else 60000
+    n = 800 if ctx.tier == "quick" else 60000
     seeds = [ctx.seed] if ctx.tier == "quick" else [ctx.seed + i for i in range(3)]
     aof_common.run_mode(ctx, exe, "aofdeadline", n, ["C07:"], classify, "deadline conversions vs real Push / LoadAofFile / GetLockCommandExpriedTime", seeds=seeds)
-    aof_common.run_restart(ctx, exe, 50 if ctx.tier == "quick" else 500, ["C07:"], seeds=seeds)
+    aof_common.run_restart(ctx, exe, 30 if ctx.tier == "quick" else 500, ["C07:"], seeds=seeds)
     ctx.cov["rule"] = ("random (unit flags, Expried incl. 1/59/60/61/1000/60000/65535, grant second, journal second within the hold's life, reload second incl. clock steps back); "
                        "distinct = (unit, Expried bucket, skipped, restored 0, outage bucket). restart: 12-36 operations per history over 2-3 dbs x 1-2 keys x 3 LockIds "
                        "(lock with persist-now / never-persist / default / percent journalling, units s/min/unlimited/ms, Count 0-2, Rcount 0-3, re-lock to depth 2-4, update flag 0x02, "
